@@ -63,7 +63,7 @@ class MinimizerIMinuit(MinimizerBase):
         else:
             self._save_state_dict["par_err"] = np.array(self._par_err)
         self._save_state_dict["fmin_struct"] = deepcopy(self._fmin_struct)
-        self._save_state_dict["minimizer_param_dict"] = self._minimizer_param_dict
+        self._save_state_dict["minimizer_param_dict"] = dict(self._minimizer_param_dict)
         self._save_state_dict["iminuit"] = self.__iminuit
         super(MinimizerIMinuit, self)._save_state()
 
@@ -76,7 +76,7 @@ class MinimizerIMinuit(MinimizerBase):
         if self._par_err is not None:
             self._par_err = np.array(self._par_err)
         self._fmin_struct = deepcopy(self._save_state_dict["fmin_struct"])
-        self._minimizer_param_dict = self._save_state_dict["minimizer_param_dict"]
+        self._minimizer_param_dict = dict(self._save_state_dict["minimizer_param_dict"])
         self.__iminuit = self._save_state_dict["iminuit"]
         self._func_handle(*self.parameter_values)  # call the function to propagate the changes to the nexus
         super(MinimizerIMinuit, self)._load_state()
@@ -140,7 +140,9 @@ class MinimizerIMinuit(MinimizerBase):
                     _par_index_free = _par_names_free.index(_par_name)
                     _asymm_par_errs[_par_index, 0] = _minos_result[_par_index_free].lower
                     _asymm_par_errs[_par_index, 1] = _minos_result[_par_index_free].upper
-        self.minimize()
+        # MINOS restores the minimum inside iminuit; write the parameter values back to the cost function
+        # (re-running MIGRAD here would replace the parameter errors by its rough running estimates)
+        self._func_wrapper_unpack_args(self.parameter_values)
         return _asymm_par_errs
 
     # -- public properties
@@ -299,7 +301,7 @@ class MinimizerIMinuit(MinimizerBase):
             # normal distribution over a circle of radius sigma centered on (0, 0).
             _cl = 1.0 - np.exp(-0.5 * sigma**2)
             _contour_line = self._get_iminuit().mncontour(parameter_name_1, parameter_name_2, size=_numpoints, cl=_cl)
-        self.minimize()  # return to minimum
+        self._func_wrapper_unpack_args(self.parameter_values)  # return to minimum
         if len(_contour_line) == 0:
             return None  # failed to find any point on contour
         return ContourFactory.create_xy_contour(np.array(_contour_line), sigma)
@@ -317,16 +319,17 @@ class MinimizerIMinuit(MinimizerBase):
     ):
         if not self.did_fit:
             raise RuntimeError("Need to perform a fit before calling profile()!")
+        self._save_state()
         _bound_low, _bound_high, _arrow_specs = self._get_profile_bound(parameter_name, low, high, sigma, cl, subtract_min, arrows)
-        self.minimize()  # return to minimum
+        self._load_state()  # return to minimum
         _kwargs = dict(bound=(_bound_low, _bound_high), subtract_min=subtract_min)
         if _IMINUIT_1:
             _kwargs["bins"] = size
         else:
             _kwargs["size"] = size
-        _bins, _vals, _statuses = self.__iminuit.mnprofile(parameter_name, **_kwargs)
+        _bins, _vals, _statuses = self._get_iminuit().mnprofile(parameter_name, **_kwargs)
         # TODO: check statuses (?)
-        self.minimize()  # return to minimum
+        self._func_wrapper_unpack_args(self.parameter_values)  # return to minimum
         return np.array([_bins, _vals]), _arrow_specs
 
     def set(self, parameter_name, parameter_value):
@@ -375,10 +378,10 @@ class MinimizerIMinuit(MinimizerBase):
 
         self._get_iminuit().migrad(ncall=max_calls)
 
+        # invalidate cache (before reading the new parameter values and errors below)
+        self._did_fit = True
+        self._invalidate_cache()
+
         for _pn, _pv, _pe in zip(self.parameter_names, self.parameter_values, self.parameter_errors):
             self._minimizer_param_dict[_pn] = _pv
             self._minimizer_param_dict["error_" + _pn] = _pe
-
-        # invalidate cache
-        self._did_fit = True
-        self._invalidate_cache()
